@@ -123,7 +123,8 @@ class Mk:
     if 'ddict' in d:
       return collections.defaultdict(list, {self(k): self(v) for k, v in d['ddict']})
     if 'plain' in d:
-      return stubmod.Plain(**{k: self(v) for k, v in d['plain']})
+      cls_ = stubmod.EqHostile if d.get('eqhostile') else stubmod.Plain
+      return cls_(**{k: self(v) for k, v in d['plain']})
     if 'tv' in d:
       kw = {'default': self(d['tv']['value'])} if 'value' in d['tv'] else {}
       return fdl.TaggedValue(tags=[stubmod.TAGS[t] for t in d['tv']['tags']], **kw)
@@ -252,6 +253,8 @@ def gen_value(rng, big):
       d = {'nt': [value(depth + 1), value(depth + 1)]}
     elif r < 0.80:
       d = {'plain': [['p', value(depth + 1)], ['q', leaf()]]}
+      if rng.random() < 0.3:
+        d['eqhostile'] = 1    # (its == / != raise for foreign operands)
     elif r < 0.84:
       t = {'tags': rng.sample(TAGS, rng.randint(1, 2))}
       if rng.random() < 0.6:
@@ -681,6 +684,8 @@ def run(case):
         raise AssertionError('harness: registering a primitive was expected to be refused')
   docs = {}
   originals = {}
+  from fiddle._src.absl_flags import utils as _flag_utils
+  zser = _flag_utils.ZlibJSONSerializer()
   real_importlib = serialization.importlib
   try:
     # ---- fault-free arm -------------------------------------------------
@@ -747,7 +752,7 @@ def run(case):
       # the same document through the flag transport (zlib + base64)
       if vi % 2 == 0:
         from fiddle._src.absl_flags import utils as flag_utils
-        z = flag_utils.ZlibJSONSerializer()
+        z = zser     # ONE serializer object for the whole run
         try:
           packed = z.serialize(value)
           back_z = z.deserialize(packed)
@@ -760,6 +765,28 @@ def run(case):
                          f'value #{vi}: ' + '; '.join(C.diff(want, C.canon(back_z)))))
           return res
         bump(probes, 'zlib_round_trips')
+        # second use of the same serializer after an edit that `==` cannot see
+        # (a tag): what it writes now must carry the edit
+        node = next((v_ for v_, _ in fdl.daglish.iterate(value)
+                     if isinstance(v_, fdl.Buildable) and not isinstance(v_, type(fdl.TaggedValue([stubmod.TAGS['U0']], 0)))
+                     and any(isinstance(k_, str) for k_ in v_.__arguments__)), None)
+        if node is not None:
+          name_ = next(k_ for k_ in node.__arguments__ if isinstance(k_, str))
+          extra = next((t_ for t_ in ('U0', 'T0', 'T1')
+                        if stubmod.TAGS[t_] not in node.__argument_tags__.get(name_, ())), None)
+          if extra is not None:
+            fdl.add_tag(node, name_, stubmod.TAGS[extra])
+            try:
+              want2 = C.canon(value)
+              back2 = z.deserialize(z.serialize(value))
+              if C.canon(back2) != want2:
+                viols.append(V('zlib-transport-differs',
+                               f'value #{vi}: second serialize() of the same serializer '
+                               'after a tag was added: ' + '; '.join(C.diff(want2, C.canon(back2)))))
+                return res
+            finally:
+              fdl.remove_tag(node, name_, stubmod.TAGS[extra])
+            bump(probes, 'zlib_second_use_after_invisible_edit')
       try:
         doc2 = serialization.dump_json(back)
       except Exception as e:  # pylint: disable=broad-except
